@@ -5,11 +5,11 @@ CONSTANTS
  NV = 1
  Cmds = {1, 2, 3}
  RepostAppends = TRUE
- Defect = "none"
+ Defect = "posTrust"
  Honest = {1, 2}
  Args <- ArgsCore
- ByzReqs <- Byz3
- MaxByz = 1
+ ByzReqs <- ByzNone
+ MaxByz = 0
  Faults <- FApi
  MaxFault = 1
  Tampers <- TAll
@@ -20,7 +20,6 @@ CONSTANTS
  MaxChain = 0
  InitSt <- IActive
  Policy = "free"
-INVARIANTS Safety Robust
-PROPERTIES MCDeleteOnlyOwn MCRefusedNoEffect
+INVARIANTS Robust
 VIEW View
 CHECK_DEADLOCK FALSE
